@@ -86,7 +86,15 @@ func runC06(c *Ctx, r *Report) {
 	r.Floor("C06.R1", 12)
 	// R3: x + y builds a new container
 	objT := c.TypeNamed("object", "Object")
+	r3names := []string{}
 	for _, name := range []string{"State.evalArrayInfixExpression", "State.evalMapInfixExpression"} {
+		if c.FnOpt("eval", name) != nil {
+			r3names = append(r3names, name)
+		} else if len(r3names) == 0 || r3names[len(r3names)-1] != "State.evalInfixExpression" {
+			r3names = append(r3names, "State.evalInfixExpression") // the per-type helper was inlined into the dispatcher
+		}
+	}
+	for _, name := range r3names {
 		fn := c.SSAFn(c.Fn("eval", name))
 		rets := f.retRoots(fn)
 		if len(rets) != 1 {
@@ -107,7 +115,7 @@ func runC06(c *Ctx, r *Report) {
 			r.Undecided("C06.R3: %s: expected two Object operands, found %d", name, n)
 		}
 	}
-	r.Floor("C06.R3", 4)
+	r.Floor("C06.R3", 2*len(r3names))
 
 	// R4: container storage holds values, not References
 	{
